@@ -111,7 +111,7 @@ Refresh(i) ==
 \* Close (graceful) -- or the process is killed: the file stays as it is
 Stop(i) ==
   /\ inst[i].st \in {"run", "failed"}
-  /\ inst' = [inst EXCEPT ![i].st = IF @ = "run" THEN "stopped" ELSE @]
+  /\ inst' = [inst EXCEPT ![i].st = "stopped"]
   /\ IF Defect = "closeDeletes" /\ file.st # "dir" THEN file' = NoFile ELSE UNCHANGED file
   /\ UNCHANGED <<now, key, chash, out, lastw, lasth>>
 
